@@ -14,7 +14,7 @@ RULE = (
     "on target markets with p0 = get_market_price(0) read when the round returns (1e-9 relative skip band "
     "around the line); is_running is read at every step-begin record. Case = one run; distinct = (seed, rule "
     "table); non-trivial = run with at least one halt."
-    ' Since the seeded rounds: a large-move profile (rates 0.25..1.5, quotes at 0.3..4.2 x the time-0 price) in which the line passes +100%, rules set up twice, forced rounds and refused requests in the direct histories; two rule objects on one market (a tiered breaker, or one rule listed under two sessions), each with its own count, asked in set-up order.'
+    ' Since the seeded rounds: a large-move profile (rates 0.25..1.5, quotes at 0.3..4.2 x the time-0 price) in which the line passes +100%, rules set up twice, forced rounds and refused requests in the direct histories; two rule objects on one market (a tiered breaker, or one rule listed under two sessions), each with its own count, asked in set-up order; every 11th run has no logger (observation point: first consultation of an agent in each step).'
 )
 ASSUMPTIONS = [
     "halts so far are counted per rule (a multi-target rule shares the count)",
@@ -26,14 +26,16 @@ REQUIRED = {
               "rounds_on_targets_judged": 2000, "class/forced_round_on_stopped_market": 30,
               "class/line_not_crossed_rounds": 1000, "class/exactly_on_the_line_decidable": 3,
               "class/price_beyond_plus_100pct_below_the_line": 5, "class/run_with_two_rule_objects_on_one_market": 20,
-              "class/halt_of_a_market_that_a_second_rule_object_also_targets": 60},
+              "class/halt_of_a_market_that_a_second_rule_object_also_targets": 60,
+              "class/step_of_a_run_without_a_logger_checked": 150},
     "thorough": {"halts": 5000, "class/run_with_2plus_halts": 600, "class/halt_cut_by_session_end": 300,
                  "class/acceptance_during_halt": 9000, "class/resumed_on_schedule": 2500,
                  "running_flag_checks": 150000, "rounds_on_targets_judged": 60000,
                  "class/forced_round_on_stopped_market": 900, "class/line_not_crossed_rounds": 30000, "class/exactly_on_the_line_decidable": 90,
                  "class/price_beyond_plus_100pct_below_the_line": 150,
                  "class/run_with_two_rule_objects_on_one_market": 500,
-                 "class/halt_of_a_market_that_a_second_rule_object_also_targets": 1500},
+                 "class/halt_of_a_market_that_a_second_rule_object_also_targets": 1500,
+                 "class/step_of_a_run_without_a_logger_checked": 4000},
 }
 
 
@@ -179,7 +181,8 @@ def gen_case(rng, tier, idx):
 
     split_extra_targets(rng, cfg, 0.15)
     add_first_attempts(rng, cfg, 0.15)
-    return {"drive": "runner", "seed": rng.randrange(1 << 31), "config": cfg, "profile": "halt"}
+    # every 11th run is made without a logger (optional argument left out): the rule must not depend on one
+    return {"drive": "runner", "seed": rng.randrange(1 << 31), "config": cfg, "profile": "halt", "no_logger": idx % 11 == 1}
 
 
 def sample_of(case):
@@ -219,6 +222,8 @@ class C16Monitor:
         self.pre_running = {}
         self.resumed = set()
         self.pending = None
+        self.no_logger = bool(case.get("no_logger"))
+        self.last_step_seen = None
 
     def rule_of(self, name):
         return [r for r in self.rules if name in r["targets"]]
@@ -227,6 +232,48 @@ class C16Monitor:
         if not self.dead:
             self.res.violation(clause, mech, detail)
             self.dead = True
+
+    def session_begin(self, sid):
+        res = self.res
+        self.sess = sid
+        self.resumed.clear()
+        for name, h in list(self.halted.items()):
+            res.count("class/halt_cut_by_session_end")
+            del self.halted[name]
+        self.unsure.clear()
+
+    def step_begin(self, m):
+        res = self.res
+        t = m.get_time()
+        cfg = self.sess_cfg[self.sess]
+        h = self.halted.get(m.name)
+        exp = cfg["withOrderExecution"]
+        why = "session flag"
+        if h is not None:
+            L = h["rule"]["L"]
+            if t <= h["h"] + L:
+                exp = False
+                why = "halt at %d for %d steps" % (h["h"], L)
+            else:
+                exp = True
+                why = "resumption due at %d" % (h["h"] + L + 1)
+                if t == h["h"] + L + 1:
+                    res.count("class/resumed_on_schedule")
+                del self.halted[m.name]
+                self.resumed.add(m.name)
+        res.count("running_flag_checks")
+        if m.is_running != exp:
+            if exp:
+                mech = "market-still-stopped-after-halt-length" if "resumption" in why else \
+                    "market-stopped-without-halt-line-crossed"
+            else:
+                mech = "market-running-during-halt" if "halt at" in why else "market-running-in-non-execution-session"
+            if mech == "market-running-in-non-execution-session":
+                res.count("running_flag_set_in_non_execution_session(no claim)")
+                return
+            self.v("schedule", mech, {"market": m.name, "time": t, "is_running": m.is_running, "expected": exp,
+                                      "because": why, "logger": not self.no_logger,
+                                      "halted": {k_: {"h": v_["h"]} for k_, v_ in self.halted.items()}})
 
     def on_event(self, ev):
         if self.dead:
@@ -249,43 +296,27 @@ class C16Monitor:
         elif k == "log_write":
             n = type(ev["log"]).__name__
             if n == "SessionBeginLog":
-                self.sess = ev["log"].session.session_id
-                self.resumed.clear()
-                for name, h in list(self.halted.items()):
-                    res.count("class/halt_cut_by_session_end")
-                    del self.halted[name]
-                self.unsure.clear()
+                self.session_begin(ev["log"].session.session_id)
             elif n == "MarketStepBeginLog":
-                m = ev["log"].market
-                t = m.get_time()
-                cfg = self.sess_cfg[self.sess]
-                h = self.halted.get(m.name)
-                exp = cfg["withOrderExecution"]
-                why = "session flag"
-                if h is not None:
-                    L = h["rule"]["L"]
-                    if t <= h["h"] + L:
-                        exp = False
-                        why = "halt at %d for %d steps" % (h["h"], L)
-                    else:
-                        exp = True
-                        why = "resumption due at %d" % (h["h"] + L + 1)
-                        if t == h["h"] + L + 1:
-                            res.count("class/resumed_on_schedule")
-                        del self.halted[m.name]
-                        self.resumed.add(m.name)
-                res.count("running_flag_checks")
-                if m.is_running != exp:
-                    if exp:
-                        mech = "market-still-stopped-after-halt-length" if "resumption" in why else \
-                            "market-stopped-without-halt-line-crossed"
-                    else:
-                        mech = "market-running-during-halt" if "halt at" in why else "market-running-in-non-execution-session"
-                    if mech == "market-running-in-non-execution-session":
-                        res.count("running_flag_set_in_non_execution_session(no claim)")
+                self.step_begin(ev["log"].market)
+        elif k == "consult_call" and self.no_logger:
+            # a run without a logger: the first consultation of an agent in a step is the observation point (the
+            # before-step hooks have run, nothing has been matched yet)
+            cs = self.sim.current_session
+            if cs is not None and cs.session_id != self.sess:
+                self.session_begin(cs.session_id)
+            if ev["time"] != self.last_step_seen:
+                self.last_step_seen = ev["time"]
+                for m in self.sim.markets:
+                    self.step_begin(m)
+                    if self.dead:
                         return
-                    self.v("schedule", mech, {"market": m.name, "time": t, "is_running": m.is_running, "expected": exp,
-                                              "because": why, "halted": {k_: {"h": v_["h"]} for k_, v_ in self.halted.items()}})
+                res.count("class/step_of_a_run_without_a_logger_checked")
+            if self.pending is not None:
+                m, t = self.pending
+                self.pending = None
+                self.v("resumes", "market-does-not-match-after-resumption",
+                       {"market": m.name, "accepted_at": t, "is_running": m.is_running})
         elif k == "exec_call":
             self.pre_running[ev["mkt"].market_id] = ev["running"]
             if self.pending is not None and self.pending[0] is ev["mkt"]:
@@ -394,7 +425,7 @@ def run_case(case, res):
         res.seen(canon_hash(case["ops"][:30]), True)
         return
     mon = C16Monitor(res, case)
-    out = run_runner_case(case, [mon.on_event])
+    out = run_runner_case(case, [mon.on_event], with_logger=not case.get("no_logger"))
     if out.error is not None and not mon.dead:
         res.count("runner_case_aborted:" + type(out.error).__name__)
         res.violation("placeable", "valid-halt-workload-aborted", {"exc": repr(out.error), "tb": (out.tb or "")[-600:]})
